@@ -112,6 +112,7 @@ Section PROOFS.
 
   (* ---------- line_format ---------- *)
   Definition lf_one (id : N) (e : entry) : list entry :=
+    if negb (errk_eqb (e_err V e) ENone) then [e] else
     match tmpl id (lset match e_lbl V e with None => [] | Some m => m end entry_key (e_msg V e)) with
     | Some s => [set_msg V e s]
     | None => []
@@ -123,9 +124,11 @@ Section PROOFS.
     induction b as [|e r IH]; intros acc; cbn [fold_entries flat_map].
     - exists []. now rewrite app_nil_r.
     - cbn [on_entry line_format_ops]. unfold lf_one at 1.
-      destruct (tmpl id _) as [s|].
-      + destruct (IH (acc ++ [set_msg V e s])) as [b' Hb]. rewrite Hb. eexists. cbn [app]. now rewrite <- app_assoc.
-      + destruct (IH acc) as [b' Hb]. rewrite Hb. eexists. reflexivity.
+      destruct (negb (errk_eqb (e_err V e) ENone)).
+      + destruct (IH (acc ++ [e])) as [b' Hb]. rewrite Hb. eexists. cbn [app]. now rewrite <- app_assoc.
+      + destruct (tmpl id _) as [s|].
+        * destruct (IH (acc ++ [set_msg V e s])) as [b' Hb]. rewrite Hb. eexists. cbn [app]. now rewrite <- app_assoc.
+        * destruct (IH acc) as [b' Hb]. rewrite Hb. eexists. reflexivity.
   Qed.
 
   Lemma wrap_line_format id : forall bs,
@@ -220,8 +223,8 @@ Section PROOFS.
   Lemma by_without_total by_ names e : by_without_f V fpf by_ names e = Ok (by_without_g by_ names e).
   Proof. unfold by_without_g, by_without_f. destruct (e_lbl V e); reflexivity. Qed.
   Definition label_format_g (fs : list lfmt_op) (e : entry) : entry :=
-    match label_format_f V fs e with Ok e' => e' | Fail _ => e end.
-  Lemma label_format_total fs e : label_format_f V fs e = Ok (label_format_g fs e).
+    match label_format_f V fpf fs e with Ok e' => e' | Fail _ => e end.
+  Lemma label_format_total fs e : label_format_f V fpf fs e = Ok (label_format_g fs e).
   Proof. unfold label_format_g, label_format_f. destruct (e_lbl V e); reflexivity. Qed.
 
   (* ---------- response optimizer: a regrouping by fingerprint ---------- *)
@@ -361,19 +364,9 @@ Section PROOFS.
   Proof. intros H. unfold InternalEngine.outcome_of. now rewrite (observe_concat a b H). Qed.
 
   (* ---------- parser: outcome is independent of the batching ---------- *)
-  Lemma parser_f_err id e e' : parser_f V fpf parse id e = Ok e' -> e_err V e' = e_err V e.
-  Proof.
-    unfold parser_f. destruct (negb _); [intros H; now inversion H|].
-    destruct (parse id _) as [kvs|]; [|discriminate].
-    destruct (e_lbl V e) as [m|]; [intros H; now inversion H|].
-    destruct kvs; [intros H; now inversion H|discriminate].
-  Qed.
-  Lemma parser_f_fail id e k : parser_f V fpf parse id e = Fail k -> k = EErr \/ k = ECrash.
-  Proof.
-    unfold parser_f. destruct (negb _); [discriminate|].
-    destruct (parse id _) as [kvs|]; [|intros H; inversion H; now left].
-    destruct (e_lbl V e) as [m|]; [discriminate|]. destruct kvs; [discriminate|intros H; inversion H; now right].
-  Qed.
+  Definition parser_g (id : N) (e : entry) : entry := match parser_f V fpf parse id e with Ok e' => e' | Fail _ => e end.
+  Lemma parser_total id e : parser_f V fpf parse id e = Ok (parser_g id e).
+  Proof. unfold parser_g, parser_f. destruct (negb _); [reflexivity|]. destruct (parse id _); reflexivity. Qed.
 
   Lemma mapM_no_crash (f : entry -> res entry) :
     (forall e e', f e = Ok e' -> e_err V e' = e_err V e) ->
@@ -538,7 +531,8 @@ Section PROOFS.
   Definition G_of (c : ctx) (s : stage V) : entry -> list entry :=
     match s with
     | SLineFilter _ op val => fun e => if line_keep V re_match op val e then [e] else []
-    | SLabelFilter _ f => fun e => if lfilter_eval V vltb vleb veqb re_match pfloat f (e_lbl V e) then [e] else []
+    | SLabelFilter _ f => fun e => if label_keep V vltb vleb veqb re_match pfloat f e then [e] else []
+    | SParser _ id => fun e => [parser_g id e]
     | SComparison _ op val => fun e => if comparison_keep V vltb vleb veqb op val e then [e] else []
     | SLabelFormat _ fs => fun e => [label_format_g fs e]
     | SUnwrap _ label => fun e => [unwrap_g label e]
@@ -557,6 +551,7 @@ Section PROOFS.
     destruct s; cbn [flat_stage simple_stage]; try discriminate; intros _; cbn [InternalEngine.run_stage G_of].
     - rewrite wrap_filter, concat_map_filter. apply filter_flat_map.
     - rewrite wrap_filter, concat_map_filter. apply filter_flat_map.
+    - rewrite (wrap_map_total _ _ (parser_total id)), concat_map_map. apply map_flat_map.
     - rewrite (wrap_map_total _ _ (label_format_total fs)), concat_map_map. apply map_flat_map.
     - rewrite wrap_line_format. apply concat_map_flat_map.
     - rewrite (wrap_map_total _ _ (unwrap_total label)), concat_map_map. apply map_flat_map.
@@ -567,6 +562,7 @@ Section PROOFS.
 
   Definition H_of (c : ctx) (s : stage V) : entry -> list entry :=
     match s with
+    | SParser _ id => fun e => [sem_parser V fpf parse id e]
     | SLabelFormat _ fs => fun e => [with_lbl V fpf e (fold_left sem_lfmt fs (lbl_of V e))]
     | SUnwrap _ label => fun e =>
         [let x := if String.eqb label entry_key then e_msg V e else lget (lbl_of V e) label in
@@ -588,18 +584,26 @@ Section PROOFS.
     destruct s; cbn [flat_stage simple_stage]; try discriminate; intros _; cbn [G_of H_of].
     - (* line filter *) apply compat_filter. intros e e' He. destruct (erase_fields e e' He) as [_ [_ [Hm [_ Hr]]]].
       unfold line_keep. now rewrite Hm, Hr.
-    - (* label filter *) apply compat_filter. intros e e' He. destruct (erase_fields e e' He) as [_ [Hl _]]. now rewrite Hl.
+    - (* label filter *) apply compat_filter. intros e e' He. destruct (erase_fields e e' He) as [_ [Hl [_ [_ Hr]]]].
+      unfold label_keep. now rewrite Hl, Hr.
+    - (* json / logfmt *) apply compat_map.
+      + intros e e' He [Hg1 [m Hm]]. destruct (erase_fields e e' He) as [Ht [Hl [Hs [Hv Hr]]]].
+        unfold parser_g, parser_f, sem_parser. rewrite Hg1. cbn [errk_eqb negb]. rewrite <- Hs, <- Hl, Hm.
+        destruct (parse id (e_msg V e)) as [kvs|].
+        * split; [unfold InternalEngine.erase; cbn; now rewrite Ht, Hs, Hv, Hr|]. split; [exact Hg1|eexists; reflexivity].
+        * split; [rewrite <- He; reflexivity|]. split; [exact Hg1|exists m; exact Hm].
+      + intros e. unfold parser_g, parser_f. destruct (negb _); [reflexivity|]. destruct (parse id _); reflexivity.
     - (* label_format *) apply compat_map.
       + intros e e' He [Hg1 [m Hm]]. destruct (erase_fields e e' He) as [Ht [Hl [Hs [Hv Hr]]]].
         unfold label_format_g, label_format_f. rewrite Hm. unfold InternalEngine.erase, with_lbl, lbl_of. rewrite <- Hl, Hm.
         cbn. rewrite lfmt_fold_eq, Ht, Hs, Hv, Hr. split; [reflexivity|]. split; [exact Hg1|eexists; reflexivity].
       + intros e. unfold label_format_g, label_format_f. destruct (e_lbl V e); reflexivity.
     - (* line_format *) intros e e' He. destruct (erase_fields e e' He) as [Ht [Hl [Hs [Hv Hr]]]]. unfold lf_one. split.
-      + intros [Hg1 [m Hm]]. unfold lbl_of. rewrite <- Hl, Hm, <- Hs. destruct (tmpl id _) as [x|]; cbn [map].
+      + intros [Hg1 [m Hm]]. rewrite Hg1. cbn [errk_eqb negb]. unfold lbl_of. rewrite <- Hl, Hm, <- Hs. destruct (tmpl id _) as [x|]; cbn [map].
         * split; [unfold InternalEngine.erase; cbn; now rewrite Ht, Hl, Hv, Hr|]. constructor; [|constructor].
           split; [exact Hg1|exists m; exact Hm].
         * split; [reflexivity|constructor].
-      + intros Hn. destruct (tmpl id _); constructor; [exact Hn|constructor].
+      + intros Hn. rewrite (errk_eqb_none _ (proj1 Hn)). cbn [negb]. constructor; [exact Hn|constructor].
     - (* unwrap *) apply compat_map.
       + intros e e' He [Hg1 [m Hm]]. destruct (erase_fields e e' He) as [Ht [Hl [Hs [Hv Hr]]]].
         unfold unwrap_g, unwrap_f. rewrite Hg1. cbn [errk_eqb negb]. unfold olget, lbl_of. rewrite <- Hl, Hm, <- Hs.
@@ -623,8 +627,8 @@ Section PROOFS.
         unfold by_without_g, by_without_f. rewrite Hm. unfold with_lbl, lbl_of. rewrite <- Hl, Hm.
         split; [unfold InternalEngine.erase; cbn; now rewrite Ht, Hs, Hv, Hr|]. split; [exact Hg1|eexists; reflexivity].
       + intros e. unfold by_without_g, by_without_f. destruct (e_lbl V e); reflexivity.
-    - (* comparison *) apply compat_filter. intros e e' He. destruct (erase_fields e e' He) as [_ [_ [_ [Hv _]]]].
-      unfold comparison_keep. now rewrite Hv.
+    - (* comparison *) apply compat_filter. intros e e' He. destruct (erase_fields e e' He) as [_ [_ [_ [Hv Hr]]]].
+      unfold comparison_keep. now rewrite Hv, Hr.
   Qed.
 
   (* ---- limit ---- *)
@@ -698,61 +702,6 @@ Section PROOFS.
   Proof.
     intros HL Hs Hd Ht E. apply data_of_sim. unfold InternalEngine.sem_chain.
     apply (sim_chain c HL ch Hs). rewrite E. now apply sim_start.
-  Qed.
-
-  (* ---- a json / logfmt stage in front, every line decoding ---- *)
-  Definition parser_g (id : N) (e : entry) : entry := match parser_f V fpf parse id e with Ok e' => e' | Fail _ => e end.
-
-  Lemma parser_good id e : good e -> decodes V parse id e ->
-    parser_f V fpf parse id e = Ok (parser_g id e) /\ good (parser_g id e) /\ erase (parser_g id e) = erase (sem_parser V fpf parse id e).
-  Proof.
-    intros [He [m Hm]] Hdec. unfold parser_g, parser_f, sem_parser, decodes in *. rewrite He, Hm. cbn [errk_eqb negb].
-    destruct (parse id (e_msg V e)) as [kvs|]; [|contradiction]. split; [reflexivity|]. split.
-    - split; [exact He|eexists; reflexivity].
-    - reflexivity.
-  Qed.
-  Lemma parser_nondata id e : nondata e -> parser_f V fpf parse id e = Ok e.
-  Proof. intros [H _]. unfold parser_f. now rewrite (errk_eqb_none _ H). Qed.
-
-  Lemma parser_first c id rows t bs :
-    Forall good rows -> Forall (decodes V parse id) rows -> Forall nondata t -> List.concat bs = rows ++ t ->
-    sim (List.concat (run_stage c (SParser V id) bs)) (map (sem_parser V fpf parse id) rows).
-  Proof.
-    intros Hd Hdec Ht E. cbn [InternalEngine.run_stage].
-    assert (M : mapM (parser_f V fpf parse id) (rows ++ t) = Ok (map (parser_g id) rows ++ t)).
-    { rewrite mapM_app.
-      assert (M1 : mapM (parser_f V fpf parse id) rows = Ok (map (parser_g id) rows)).
-      { clear E. induction Hd as [|e r Hg _ IH]; [reflexivity|]. inversion Hdec; subst. cbn [mapM map].
-        destruct (parser_good id e Hg H1) as [P1 _]. now rewrite P1, IH. }
-      assert (M2 : mapM (parser_f V fpf parse id) t = Ok t).
-      { clear E. induction Ht as [|e r Hn _ IH]; [reflexivity|]. cbn [mapM]. now rewrite (parser_nondata id e Hn), IH. }
-      now rewrite M1, M2. }
-    pose proof (wrap_map_shape (parser_f V fpf parse id) bs) as S. rewrite E, M in S. rewrite S.
-    exists (map (parser_g id) rows), t. split; [reflexivity|]. split; [|split; [exact Ht|]].
-    - clear E M S. induction Hd as [|e r Hg _ IH]; [constructor|]. inversion Hdec; subst. cbn [map]. constructor; [|now apply IH].
-      exact (proj1 (proj2 (parser_good id e Hg H1))).
-    - clear E M S. induction Hd as [|e r Hg _ IH]; [reflexivity|]. inversion Hdec; subst. cbn [map]. f_equal; [|now apply IH].
-      exact (proj2 (proj2 (parser_good id e Hg H1))).
-  Qed.
-
-  Lemma chain_agrees_parser_first c id ch rows t bs :
-    0 <= c_limit c -> forallb (simple_stage V) ch = true ->
-    Forall good rows -> Forall (decodes V parse id) rows -> Forall nondata t -> List.concat bs = rows ++ t ->
-    map erase (data_of V (List.concat (run_chain c (SParser V id :: ch) bs))) =
-    map erase (sem_chain c (SParser V id :: ch) (List.concat bs)).
-  Proof.
-    intros HL Hs Hd Hdec Ht E. apply data_of_sim.
-    assert (S0 : sim (List.concat bs) (data_of V (List.concat bs))) by (rewrite E; now apply sim_start).
-    unfold InternalEngine.run_chain, InternalEngine.sem_chain. cbn [fold_left]. rewrite (sim_no_crash bs _ S0).
-    apply (sim_chain c HL ch Hs). cbn [InternalEngine.sem_stage].
-    assert (D : data_of V (List.concat bs) = rows).
-    { rewrite E. unfold data_of. rewrite filter_app.
-      assert (E1 : filter (fun e => errk_eqb (e_err V e) ENone) rows = rows).
-      { clear E S0. induction Hd as [|e d' [Hx _] _ IH]; [reflexivity|]. inversion Hdec; subst. cbn [filter]. now rewrite Hx, IH. }
-      assert (E2 : filter (fun e => errk_eqb (e_err V e) ENone) t = []).
-      { clear E S0. induction Ht as [|e t' [Hx _] _ IH]; [reflexivity|]. cbn [filter]. now rewrite (errk_eqb_none _ Hx), IH. }
-      now rewrite E1, E2, app_nil_r. }
-    rewrite D. now apply (parser_first c id rows t bs).
   Qed.
 
   Lemma data_of_rows rows t : Forall good rows -> Forall nondata t -> data_of V (rows ++ t) = rows.
